@@ -39,7 +39,7 @@ type c15Vec struct {
 
 type c15World struct {
 	*vNet
-	A, M, T, R *vNode
+	A, M, T, R, D *vNode
 	atR        [][]byte // every datagram that entered or left the relay
 }
 
@@ -51,13 +51,16 @@ func c15NewWorld(t *testing.T) *c15World {
 	w.T = n.AddNode(cert.Version2, "T", "10.128.0.2/24", m{"relay": m{"use_relays": true}, "timers": quiet})
 	w.A = n.AddNode(cert.Version2, "A", "10.128.0.1/24", m{"relay": m{"use_relays": true}, "timers": quiet})
 	w.M = n.AddNode(cert.Version2, "M", "10.128.0.3/24", m{"relay": m{"use_relays": true}, "timers": quiet})
+	w.D = n.AddNode(cert.Version2, "D", "10.128.0.4/24", m{"timers": quiet}) // a third host with a DIRECT tunnel to T
+	w.D.Ctrl.InjectLightHouseAddr(w.T.Vpn[0].Addr(), w.T.UDP)
+	w.T.Ctrl.InjectLightHouseAddr(w.D.Vpn[0].Addr(), w.D.UDP)
 	for _, s := range []*vNode{w.A, w.M} {
 		s.Ctrl.InjectLightHouseAddr(w.R.Vpn[0].Addr(), w.R.UDP)
 		s.Ctrl.InjectRelays(w.T.Vpn[0].Addr(), []netip.Addr{w.R.Vpn[0].Addr()})
 	}
 	w.R.Ctrl.InjectLightHouseAddr(w.T.Vpn[0].Addr(), w.T.UDP)
 	n.Start()
-	for _, s := range []*vNode{w.A, w.M} {
+	for _, s := range []*vNode{w.A, w.M, w.D} {
 		n.TunSend(s, vUDPPacket(s.Vpn[0].Addr(), w.T.Vpn[0].Addr(), 4000, 5000, []byte("hello-"+s.Name)))
 	}
 	for i := 0; i < 60; i++ {
@@ -177,6 +180,25 @@ func TestVerif_C15(t *testing.T) {
 					inner[k] = byte(rnd.Intn(256))
 				}
 				copy(inner[:header.Len], c15Inner(g)[:header.Len])
+			case "recverr_self", "recverr_third":
+				// a recv_error names the index the TARGET's peer uses for the tunnel (the target looks it up in its
+				// remote-index table): for the sender's relayed tunnel the relay reads it off the traffic it forwards the
+				// other way; for the third host's direct tunnel the harness supplies it
+				who := s
+				if v.In.Alter == "recverr_third" {
+					who = w.D
+				}
+				var idx uint32
+				for _, tn := range w.T.Ctrl.VerifProject().Tunnels {
+					if tn.CertName == who.Name {
+						idx = tn.RemoteIndex
+					}
+				}
+				if idx == 0 {
+					res.Hit("no-tunnel-for-recverr")
+					return
+				}
+				inner = header.Encode(make([]byte, header.Len), header.Version, header.RecvError, 0, idx, 0)
 			case "replayed":
 				w.Deliver(g) // the genuine one first
 				if out := w.T.TakeTun(); len(out) != 1 {
@@ -252,6 +274,12 @@ func TestVerif_C15(t *testing.T) {
 				bt, at := w.tunnelTops(before), w.tunnelTops(after)
 				delete(bt, "R")
 				delete(at, "R")
+				if v.In.Alter == "recverr_self" && !reflect.DeepEqual(w.hostsOf(before), w.hostsOf(after)) {
+					// one key for this class: it is what known_findings.jsonl lists (by design, listen.accept_recv_error)
+					res.Mismatch("relayed-recv_error-teardown:relay-only-tunnel", fmt.Sprintf("a recv_error forwarded by the relay (no key authenticates it) closed the target's relayed tunnel with %s", s.Name), detail)
+					res.Traces++
+					return
+				}
 				if !reflect.DeepEqual(bt, at) || !reflect.DeepEqual(w.hostsOf(before), w.hostsOf(after)) {
 					res.Mismatch("state-changed:"+key, fmt.Sprintf("an inner packet altered by the relay (%s) changed the endpoint's tunnels", v.In.Alter), detail)
 				}
